@@ -449,6 +449,13 @@ func genSys(c *ctx) {
 					if c.rng.Intn(3) == 0 {
 						rr.AddOption(dhcpv6.OptInterfaceID([]byte{9, byte(r)}))
 					}
+					if c.rng.Intn(3) == 0 {
+						// the relay reports the client's hardware address itself (RFC 6939): the same or another than the client id's
+						rr.AddOption(dhcpv6.OptClientLinkLayerAddress(iana.HWTypeEthernet, net.HardwareAddr(macs[c.rng.Intn(len(macs))])))
+					} else if c.rng.Intn(4) == 0 {
+						hw := macs[c.rng.Intn(len(macs))]
+						rr.PeerAddr = net.IP{0xfe, 0x80, 0, 0, 0, 0, 0, 0, hw[0] ^ 2, hw[1], hw[2], 0xff, 0xfe, hw[3], hw[4], hw[5]}
+					}
 					d = rr
 				}
 				src := net.ParseIP("fe80::99")
@@ -490,6 +497,10 @@ func genSys(c *ctx) {
 				}
 				if c.rng.Intn(10) == 0 {
 					d.UpdateOption(dhcpv4.OptMessageType(dhcpv4.MessageType(c.rng.Intn(10))))
+				}
+				if c.rng.Intn(4) == 0 {
+					// option 50: an address of the range plugin's pool, none, another
+					d.UpdateOption(dhcpv4.OptRequestedIPAddress([]net.IP{u32ip(uint32(0x0a000a0a) + uint32(c.rng.Intn(206))), net.IPv4zero.To4(), net.IPv4(192, 168, 1, 77).To4()}[c.rng.Intn(3)]))
 				}
 				dg := d.ToBytes()
 				if c.rng.Intn(6) == 0 {
